@@ -79,7 +79,11 @@ var chunkPools = [][]string{
 	{"q\"uo", "k:v", "w\\x", "t'ic", "y=1", "[z]", "{m}", "n,o"},
 	{"1e3", "yes", "~", "null", "true", "0x1F", "&anc", "!tag"},
 	{"x\x01y", "v​z", "r\x7f", "p%s", "u<b>", "j|k", "i`l", "o$H"},
+	// names that differ only in letter case (never shuffled: the first two chunk ids are such a pair; K is the Kelvin sign)
+	{"a", "A", "b", "B", "ä", "Ä", "k", "K"},
 }
+
+const caseTwinPool = 5
 
 type branchSet struct{ name, ld, li, md, mi string }
 
@@ -91,7 +95,11 @@ var branchSets = []branchSet{
 	{"distinct", "L", "l", "M", "m"},
 	{"empty-connectors", "", "a", "", "b"},  // connectors empty, continuation strings differ
 	{"overlapping", "|", "| ", "|-", "|  "}, // a connector that also occurs inside the continuation strings
+	{"unequal", "`--", "  ", "+---->", "|     "}, // connectors (and continuation strings) of different byte lengths
 }
+
+// NumBranchSets: how many branch-string sets MakeConc knows.
+func NumBranchSets() int { return len(branchSets) }
 
 // Concs returns n concretisations chosen by seed; the first is always plain ASCII chunks with the
 // default branch strings.
@@ -103,6 +111,9 @@ func Concs(seed int64, n int, chunkIDs []string) []*Conc {
 		if i > 0 {
 			pi = (i + int(rng.Intn(len(chunkPools)))) % len(chunkPools)
 			bi = i % len(branchSets)
+			if i == 2 {
+				pi = caseTwinPool // the third concretisation always has sibling names that differ only in letter case
+			}
 		}
 		out = append(out, MakeConc(pi, bi, i%2 == 1, chunkIDs, rng))
 	}
@@ -116,7 +127,7 @@ func MakeConc(pool, branches int, finalNL bool, chunkIDs []string, rng *rand.Ran
 	for i := range perm {
 		perm[i] = i
 	}
-	if rng != nil && pool != 0 {
+	if rng != nil && pool != 0 && pool%len(chunkPools) != caseTwinPool {
 		rng.Shuffle(len(perm), func(i, j int) { perm[i], perm[j] = perm[j], perm[i] })
 	}
 	c := &Conc{Name: fmt.Sprintf("pool%d/%s/nl=%v", pool, b.name, finalNL), Chunks: map[string]string{},
